@@ -321,7 +321,7 @@ Proof.
   pose proof (sticky_valid (S fuel) o ms' ts Wm' Wt) as SV. unfold sticky_plan. unfold sticky_plan_full in *.
   destruct (sticky_prepare o ms' ts) as [pr|] eqn:Ep.
   2:{ exfalso. cbn [p_res] in SV. destruct SV as [mm [H1 H2]]. unfold ms' in H1. apply in_map_iff in H1 as [m0 [<- _]]. discriminate. }
-  pose proof (sticky_prepare_ok o ms' ts pr Wm' Wt Ep) as [C1 C2 NW NF DJ FP KY ID RI PA PALL].
+  pose proof (sticky_prepare_ok o ms' ts pr Wm' Wt Ep) as [C1 C2 NW NF DJ FP KY ID RI PA PALL _].
   set (W := akeys (s_ca (pr_s0 pr))) in *.
   assert (Stay : forall m x, In x (holds p m) -> In x (ca_get (s_ca (pr_s0 pr)) m) \/ In x (ca_get (pr_fixed pr) m)).
   { intros m x Hx. destruct (Hmem m x Hx) as [Hm Hp]. eapply (preparation_keeps o ms ts p g pr); eauto. }
